@@ -14,11 +14,12 @@ EXPLANATION = (
     "appends only if not pending and not labelled; S3 re-reported levels (ignore_data) reach neither the searcher "
     "update nor searcher.on_trial_result; S4 no double update at the same resource; S5 data-policy guards "
     "('rungs': rung level or max_t; 'rungs_and_last': previous non-rung case removed before update); S6 completion and "
-    "failure always reach cleanup_pending / mark_trial_failed; S7 state mutations invalidate the cached predictor. "
+    "failure always reach cleanup_pending / mark_trial_failed; S7 state mutations invalidate the cached predictor; S8 no loop of "
+    "the pending-evaluation bookkeeping iterates a list that its body (transitively) mutates. "
     "NOT decided (numeric / history): that the stored metric value equals the reported one after map_reward, and the "
     "contents of the data set after arbitrary interleavings.")
 
-FLOOR = {"S1": 1, "S2": 3, "S3": 3, "S4": 3, "S5": 4, "S6": 4, "S7": 3}
+FLOOR = {"S1": 1, "S2": 3, "S3": 3, "S4": 3, "S5": 4, "S6": 4, "S7": 3, "S8": 1}
 
 
 def s1_keepfilter(ctx, rep, clause="S1"):
@@ -59,7 +60,46 @@ def s1_keepfilter(ctx, rep, clause="S1"):
             raise AnchorError(f"{owner.qualname}: predicate does not compare an element attribute with an id parameter")
         common.keepfilter_polarity(ctx, rep, clause, f, rets, elem_attr, idexpr, owner.short, call, semantics=sem)
         n += 1
+    # implementations that do not use the filter: removal by a loop that drops the entries of exactly this trial
+    for m in common.overrides(ctx, "BaseSearcher", "cleanup_pending"):
+        if m.cls is None or not ctx.P.is_subclass(m.cls, ctx.P.cls("ModelBasedSearcher")):
+            continue
+        if any(fn_name(c) == "filter_pending_evaluations" for c, _ in ctx.R.calls(m)) or any(
+                fn_name(c) == "filter_pending_evaluations" for g in m.nested.values() for c, _ in ctx.R.calls(g)):
+            continue
+        drops = [x for x in walk_shallow(m.node) if isinstance(x, ast.Call) and fn_name(x) in ("drop_pending_evaluation", "remove_pending")]
+        cfg = cfg_of(m)
+        ok = bool(drops)
+        for d in drops:
+            nid = [k.id for k in cfg.nodes if any(y is d for y in cfg.node_walk(k.id))][0]
+            ok = ok and ctx.has_fact(m, nid, lambda a: a[0] == "eq" and a[3] is True and "trial_id" in (a[1], a[2]) and
+                                     (a[1].endswith(".trial_id") or a[2].endswith(".trial_id")))
+        rep.put(ok, clause, "keepfilter_polarity", m.short, m, drops[0] if drops else None,
+                "entries are dropped one by one, only those whose trial_id equals the given one",
+                "cleanup_pending neither filters with a predicate nor drops exactly the entries of the given trial")
+        n += 1
     return n
+
+
+def s8(ctx, rep):
+    """no loop on the pending-evaluation bookkeeping iterates a container that its body mutates"""
+    P = ctx.P
+    funcs = list(P.cls("ModelStateTransformer").methods.values()) + list(P.cls("TuningJobState").methods.values())
+    funcs += common.overrides(ctx, "BaseSearcher", "cleanup_pending") + common.overrides(ctx, "BaseSearcher", "evaluation_failed")
+    funcs += common.overrides(ctx, "BaseSearcher", "register_pending") + common.overrides(ctx, "BaseSearcher", "remove_case")
+    n = 0
+    seen = set()
+    for f in funcs:
+        if f in seen:
+            continue
+        seen.add(f)
+        n += 1
+        for loop, fld, culprit in common.mutation_during_iteration(ctx, f):
+            rep.bad("S8", "iter_mutation", f"{f.short}: loop over `{fld}` does not mutate it", f, loop,
+                    f"`for ... in {U(loop.iter)[:60]}` iterates the live `{fld}` list while its body changes it (`{culprit}`): "
+                    "removing an element shifts the following one under the iterator, so every second matching entry survives")
+    rep.put(not any(i.clause == "S8" and i.status == "violation" for i in rep.items), "S8", "iter_mutation",
+            "pending-evaluation bookkeeping never mutates a list while iterating it", None, None, f"{n} functions scanned")
 
 
 def _is_drop_call(x):
@@ -419,3 +459,4 @@ def run(ctx, rep, tier="quick"):
     s5(ctx, rep)
     s6(ctx, rep)
     s7(ctx, rep)
+    s8(ctx, rep)
